@@ -224,7 +224,7 @@ class Tree:
             self._canonical_locals("local_names_norm.json")
 
     def _normalise_bodies(self):
-        from .normalise import inline_aliases, loops_to_comprehensions, positive_ifexps, unroll_literal_loops, updates_to_loops, inline_single_use_temps, forward_attr_stores, searches_to_loops, genexp_loops, split_webs, ifexp_to_if, default_none_gets, while_true_breaks, integer_attributes, explicit_to_augmented, hoist_walrus, push_not, or_defaults, split_chained_assignments, split_tuple_assignments, merge_nested_withs, conditional_iter_loops, index_while_to_for, strip_annotations, list_literal_augments, joinpaths, sink_returns, drop_self_assignments, operator_getters, dict_key_loops, index_to_unpack
+        from .normalise import inline_aliases, loops_to_comprehensions, positive_ifexps, unroll_literal_loops, updates_to_loops, inline_single_use_temps, forward_attr_stores, searches_to_loops, genexp_loops, split_webs, ifexp_to_if, default_none_gets, while_true_breaks, integer_attributes, explicit_to_augmented, hoist_walrus, push_not, or_defaults, split_chained_assignments, split_tuple_assignments, merge_nested_withs, conditional_iter_loops, index_while_to_for, strip_annotations, list_literal_augments, joinpaths, sink_returns, drop_self_assignments, operator_getters, dict_key_loops, index_to_unpack, inline_method_aliases, len_truthiness
 
         self.normalised: List[str] = []
         int_attrs = integer_attributes([m.tree for m in self.modules.values() if not m.is_test()])
@@ -232,6 +232,9 @@ class Tree:
             if f.module.is_test():
                 continue
             strip_annotations(f.node)
+            if f.cls is not None and f.parent is None:
+                inline_method_aliases(f.node, set(f.cls.methods))
+            len_truthiness(f.node)
             operator_getters(f.node)
             dict_key_loops(f.node)
             index_to_unpack(f.node)
@@ -347,13 +350,21 @@ class Tree:
                     from .normalise import comprehension_vars, names_in_nested_scopes, same_def_use
                     from .astq import ast_copy
 
-                    touched = set(mapping) | set(mapping.values())
-                    if touched & (names_in_nested_scopes(f.node) | comprehension_vars(f.node) | pnames):
-                        continue
-                    trial = ast_copy(f.node)
-                    self._rename_two_pass(trial, mapping)
-                    if not same_def_use(f.node, trial):
-                        continue
+                    forbidden = names_in_nested_scopes(f.node) | comprehension_vars(f.node) | pnames
+                    counts = {}
+                    for v_ in mapping.values():
+                        counts[v_] = counts.get(v_, 0) + 1
+                    # the renames that merge nothing are always safe: keep them, and add the merging ones only if they are harmless
+                    plain = {k: v_ for k, v_ in mapping.items() if counts[v_] == 1 and not (v_ in used and v_ not in mapping) and k not in pnames}
+                    full_ok = not ((set(mapping) | set(mapping.values())) & forbidden)
+                    if full_ok:
+                        trial = ast_copy(f.node)
+                        self._rename_two_pass(trial, mapping)
+                        full_ok = same_def_use(f.node, trial)
+                    if not full_ok:
+                        mapping = plain
+                        if not mapping:
+                            continue
                 self._rename_two_pass(f.node, mapping)
                 self.renamed.append(f"{key}: locals {mapping}")
         cspec = spec.with_name(table.replace("local_names", "scoped_names"))
